@@ -233,7 +233,7 @@ Qed.
 Lemma all_checked : forall_params check = true.
 Proof. vm_compute. reflexivity. Qed.
 
-(** Parameters with the repaired statement order. *)
+(** Configurations with the repaired statement order. *)
 Definition fixed (p : params) : Prop := sbd p = true.
 
 Theorem safe_all_reachable p s :
